@@ -331,12 +331,11 @@ func (w *arWorld) pack(to types.Address, method string, s *arSpec, gen string) *
 	return &arCall{to: to, method: method, from: s.from, tok: s.tok, amount: s.amount, data: data, gen: gen}
 }
 
-var arBoundaryInts = []*big.Int{
-	big.NewInt(0), big.NewInt(1),
-	new(big.Int).SetUint64(1 << 63), new(big.Int).SetUint64(^uint64(0)),
-	new(big.Int).Sub(new(big.Int).Lsh(big.NewInt(1), 255), big.NewInt(1)),
-	new(big.Int).Sub(new(big.Int).Lsh(big.NewInt(1), 256), big.NewInt(1)),
-}
+// arBoundaryInts: 0, 1, 2, the neighbours of 2^k for the widths of the integer types of the code base and the neighbours of
+// every amount bound of vm/constants (s_autoreceive_sweep.go; the sweep there visits them all, the generators here mix
+// them with the other kinds of arguments)
+var arBoundaryInts = arSortUniq(append(arPowFamily(), arBigConstFamily()...))
+var arBoundarySmallInts = arSortUniq(append(arPowFamily(), arSmallConstFamily()...))
 
 // boundaryArg replaces an argument of ABI type t by a boundary value of that type
 func (w *arWorld) boundaryArg(t abi.Type, old interface{}) interface{} {
@@ -345,7 +344,16 @@ func (w *arWorld) boundaryArg(t abi.Type, old interface{}) interface{} {
 	case abi.UintTy, abi.IntTy:
 		b := arBoundaryInts[R.Intn(len(arBoundaryInts))]
 		if t.Kind == reflect.Ptr {
+			if b.BitLen() > 256 {
+				b = new(big.Int).Sub(bigPow2(256), big.NewInt(1))
+			}
 			return new(big.Int).Set(b)
+		}
+		// a boundary of the small family that the type can hold, else the low bits of a big one
+		for k := 0; k < 4; k++ {
+			if x, ok := arIntArg(t, arBoundarySmallInts[R.Intn(len(arBoundarySmallInts))]); ok && R.Intn(3) != 0 {
+				return x
+			}
 		}
 		v := reflect.New(t.Type).Elem()
 		x := new(big.Int).And(b, new(big.Int).SetUint64(^uint64(0))).Uint64()
@@ -363,7 +371,12 @@ func (w *arWorld) boundaryArg(t abi.Type, old interface{}) interface{} {
 		}
 		return v.Interface()
 	case abi.StringTy:
-		switch R.Intn(4) {
+		switch R.Intn(5) {
+		case 4: // the length bounds of names, symbols, domains, descriptions (vm/constants) and 255 / 256 / 257, +-1
+			M := []int{constants.PillarNameLengthMax, constants.TokenNameLengthMax, constants.TokenSymbolLengthMax, constants.TokenDomainLengthMax,
+				constants.ProjectNameLengthMax, constants.ProjectDescriptionLengthMax, constants.SporkNameMinLength, constants.SporkNameMaxLength,
+				constants.SporkDescriptionMaxLength, 256, 2 * constants.PillarNameLengthMax, 256 + constants.TokenSymbolLengthMax}[R.Intn(12)]
+			return strings.Repeat([]string{"a", "A", "7"}[R.Intn(3)], M-1+R.Intn(3))
 		case 0:
 			return ""
 		case 1:
@@ -374,11 +387,13 @@ func (w *arWorld) boundaryArg(t abi.Type, old interface{}) interface{} {
 			return old.(string) + "\x00"
 		}
 	case abi.BytesTy:
-		switch R.Intn(3) {
+		switch R.Intn(4) {
 		case 0:
 			return []byte{}
 		case 1:
 			return make([]byte, 255)
+		case 2: // digest / preimage length bounds and lengths that fit them only modulo 2^8
+			return make([]byte, []int{31, 32, 33, 63, 64, 65, 254, 256, 257, 256 + 32, 256 + 31, 512 + 32, 4096}[R.Intn(13)])
 		default:
 			return make([]byte, 1+R.Intn(64))
 		}
@@ -434,6 +449,16 @@ func (w *arWorld) boundary(to types.Address, method string) *arSpec {
 		if R.Intn(3) == 0 {
 			for i, in := range m.Inputs {
 				s.args[i] = w.boundaryArg(in.Type, s.args[i])
+			}
+		} else if R.Intn(4) == 0 {
+			// every amount argument gets the same boundary value (total supply = maximal supply, znn funds = qsr funds)
+			b := arBoundaryInts[R.Intn(len(arBoundaryInts))]
+			for i, in := range m.Inputs {
+				if in.Type.Kind == reflect.Ptr && (in.Type.T == abi.UintTy || in.Type.T == abi.IntTy) {
+					if x, ok := arIntArg(in.Type, b); ok {
+						s.args[i] = x
+					}
+				}
 			}
 		} else {
 			i := R.Intn(len(m.Inputs))
@@ -916,6 +941,19 @@ func (w *arWorld) runScenario(name string) {
 			}
 		}
 		return true
+	}
+	if strings.HasPrefix(name, "int-sweep:") {
+		part, parts := 0, 1
+		fmt.Sscanf(name, "int-sweep:%d/%d", &part, &parts)
+		if parts < 1 {
+			parts = 1
+		}
+		w.runIntSweep(part%parts, parts)
+		return
+	}
+	if name == "degenerate-epochs" {
+		w.runDegenerateEpochs()
+		return
 	}
 	switch name {
 	case "wrap-owned-unburnable", "wrap-owned-unburnable-htlc-regime":
